@@ -28,7 +28,8 @@ META = {
     'design_ref': 'DESIGN.md section 4 C20',
     'theorems': ['C20_memo_linearizable', 'C20_memo_sequential', 'C20_protocols', 'C20_load_plain', 'C20_dump_plain',
                  'C20_env_plain', 'C20_v1_catchall_plain', 'C20_partial', 'C20_refuted_path_fill', 'C20_refuted_env_inplace',
-                 'C20_f31_repair_removes_witnesses', 'C20_former_witnesses_sequential', 'C20_hook_table'],
+                 'C20_f31_repair_removes_witnesses', 'C20_former_witnesses_sequential', 'C20_hook_table',
+                 'C20_v1_load_plain', 'C20_v1_linearizable', 'C20_v1_sequential', 'C20_v1_refuted_path_fill'],
     'tables': ['ConcHooks'],
     'level_text': ('PARTIAL. Proved in Coq for ALL schedules (any number of threads, unbounded length, one scheduling point per '
                    'shared-table access): a program whose every write stores an admissible value for its key (after the entries it '
@@ -45,12 +46,24 @@ META = {
                    'are about the REBIND protocol of Env.load_environ (a complete copy is built, then the global is rebound); an '
                    'in-place refill of the shared dict is refuted in the model (C20_refuted_env_inplace), the protocol shape is '
                    'detected from the source, and a hook-free real-thread search (reload || plain instantiation, 12 000 filler '
-                   'variables) looks for the failing run.'),
+                   'variables) looks for the failing run. V1 ENGINE: the complete first load of a v1 class with nested classes is a '
+                   'micro-step program too (ConcV1Model.v: CLASS_TO_LOAD_FUNC, _META, FIELDS, FIELD_TO_DEFAULT, CLASS_TO_V1_LOADER, '
+                   'IS_V1_LOAD_CONFIG_SETUP and the set-up filling the alias / AliasPath tables, the alias table read AND written during '
+                   'generation under a key-case transform, nested generations under the recursion guard, Meta.bind_to of nested classes, '
+                   'setattr, store); proved memo-shaped for EVERY class environment without AliasPath fields, hence (all schedules, any '
+                   'number of threads, any lists of loads of the same class / of classes sharing nested classes) every load returns its '
+                   'sequential result and no table holds a non-admissible value (C20_v1_load_plain / _linearizable / _sequential); with '
+                   '>= 2 AliasPath fields REFUTED with concrete schedules (v1 site of F31), one of which leaves the class '
+                   'half-initialised for ever; both reproduced on the implementation with the identical yield-point trace.'),
     'level_note': ('The theorem is about the micro-step model: preemption between two shared-table accesses. Not exhibited: races '
                    'inside one micro-step (between bytecodes of a dict-free statement), GIL release points inside C extensions, '
                    'free-threaded (no-GIL) builds where single dict operations are still atomic but the model rule R4 is not '
-                   'validated, class definition / Meta binding running concurrently with calls. The v1 engine is tied by the '
-                   'direct predicate and one abstract protocol (catch-all pop) only, not by a full program model.'),
+                   'validated, class definition / Meta binding running concurrently with calls. Of the v1 engine the first LOAD is a '
+                   'full program model (replayed schedule for schedule); the v1 DUMP, explicit Alias(load=...) fields, Union / tag '
+                   'tables and the AUTO key case are tied by the direct predicate only. In the v1 program the value read by '
+                   '`name in field_to_default` and the CatchAll marker do not influence the modelled outcome (their protocols are '
+                   'p_defaults of C20_protocols and C20_v1_catchall_plain); all threads of one scenario are assumed to carry the same '
+                   'Meta settings (Meta leaking into shared nested classes is F10, property C07).'),
     'rule': ('scenario families x thread programs (2-3 threads, 1-2 calls each) x all schedules with <= bound preemptions at the '
              'H2 yield points (quick: bound 2, at most ~220 schedules per scenario chosen pseudo-randomly from the frontier when '
              'there are more; thorough: bound 3, up to 2000). A run is non-trivial when at least one preemption happened and two '
@@ -66,6 +79,10 @@ META = {
         'two generated functions / loader classes / dumper classes for the same class are interchangeable (admissible values); '
         'validated by the direct predicate on every explored schedule, proved for the model only',
         'cooperative scheduler and forked pristine process per run (harness/impl/c20.py)',
+        'v1 first-load program (coq/model/ConcV1Model.v): hand-written list of the shared-table accesses of '
+        'loader_selection.fromdict -> v1/loaders.load_func_for_dataclass -> class_helper._setup_v1_load_config_for_cls in source '
+        'order; tied on every run by the schedule-for-schedule replay (same yield-point arrivals, same outcome classes) over '
+        '2-3 threads x same class / shared nested classes / key-case transform / CatchAll / AliasPath',
     ],
     'assumptions': ['os.environ is not modified while EnvWizard classes are instantiated',
                     'classes are defined and Meta is bound before the threads start'],
@@ -284,6 +301,7 @@ def scenarios(ctx):
     S.append(Scn('v1 paths load||dump', 'v1', v1pa, [[('load', full_doc(v1pa))], [('dump', dump_vals(v1pa))]],
                  engine='v1', modelled=False, regions=['F31']))
     S.extend(nested_scenarios(ctx))
+    S.extend(v1_program_scenarios(ctx))
     S.extend(env_new_names_scenarios(ctx))
     inner = {'name': 'Inner', 'engine': 'v0', 'wizard': False, 'fields': [{'name': 'xx_val', 'type': 'int'}], 'meta': {}}
     nest = Scn('nested class load||dump', 'nested', [F()], [[('load', [('exact', 0), ('raw', 'child', {'xxVal': 5})])],
@@ -315,6 +333,124 @@ class RawScn:
         if self.files:
             d['files'] = self.files
         return d
+
+
+class V1Scn(RawScn):
+    """First v1 loads, MODELLED (coq/model/ConcV1Model.v): classes in the runner's JSON form, a list of load calls per thread.
+    The class environment of the model is derived from the same description: class id = position; per field
+    (default, AliasPath, CatchAll, nested class id); key-case transform; wizard; loader bound at definition time
+    (function-API classes are bound by LoadMeta(v1=True).bind_to)."""
+    modelled = True
+    kind = 'v1m'
+
+    def __init__(self, name, classes, threads, regions=()):
+        RawScn.__init__(self, name, 'v1_program', classes, threads, engine='v1', regions=regions)
+        # region_of looks at sc.fields for the number of path fields: those of the class with most of them
+        best = max(classes, key=lambda c: sum(1 for f in c['fields'] if f.get('path')))
+        self.fields = [{'path': bool(f.get('path'))} for f in best['fields']]
+        self.path_names = {f['name'] for c in classes for f in c['fields'] if f.get('path')}
+
+    def coq(self, fx=None):
+        ids = {c['name']: i for i, c in enumerate(self.classes)}
+        env = []
+        for c in self.classes:
+            assert c.get('engine') == 'v1'
+            fs = []
+            for f in c['fields']:
+                assert not f.get('alias'), 'explicit Alias(...) fields are outside the v1 program model'
+                nested = 'None'
+                if f['type'].startswith('cls:'):
+                    nested = '(Some %d)' % ids[f['type'][4:]]
+                fs.append('(mkV1F %s %s %s %s)' % (BOOL['default' in f], BOOL[bool(f.get('path'))],
+                                                    BOOL[f['type'] == 'catch_all'], nested))
+            meta = c.get('meta') or {}
+            kc = (meta.get('v1_key_case') if c.get('wizard') else (meta.get('load') or {}).get('v1_key_case'))
+            assert kc in (None, 'CAMEL')
+            env.append('(mkV1C [%s] %s %s %s)' % ('; '.join(fs), BOOL[kc == 'CAMEL'], BOOL[bool(c.get('wizard'))],
+                                                  BOOL[not c.get('wizard')]))
+        pss = []
+        for th in self.calls:
+            assert th and all(c['op'] == 'load' for c in th)
+            pss.append('[%s]' % '; '.join(str(ids[c['cls']]) for c in th))
+        return '(v1_scenario [%s] [%s])' % ('; '.join(env), '; '.join(pss))
+
+
+def camel(n):
+    a = n.split('_')
+    return a[0] + ''.join(x.capitalize() for x in a[1:])
+
+
+def v1_program_scenarios(ctx):
+    """2-3 threads making the FIRST v1 load of the same class / of classes that share nested classes; key-case
+    transform (generation writes aliases into the shared alias table) or not; defaults; CatchAll; wizard / function API;
+    AliasPath fields (two-phase path table, F31).  Every run is compared schedule-for-schedule with ConcV1Model."""
+    r = ctx.sub_rng('v1_program')
+    S = []
+
+    def mk(kc):
+        K = (lambda n: camel(n)) if kc else (lambda n: n)
+
+        def C(name, fields, wiz=False):
+            meta = ({'v1_key_case': 'CAMEL'} if wiz else {'load': {'v1_key_case': 'CAMEL'}}) if kc else {}
+            return {'name': name, 'engine': 'v1', 'wizard': wiz, 'fields': fields, 'meta': meta}
+        L = lambda c, doc: {'op': 'load', 'cls': c, 'doc': doc}
+        return K, C, L
+
+    wiz_kc = r.choice([False, True])
+    for kc in (False, True):
+        K, C, L = mk(kc)
+        t = 'v1 program%s: ' % (' (CAMEL)' if kc else '')
+        # -- one class, 2-3 fields, a default somewhere, 2 and 3 threads
+        nf = r.choice([2, 3])
+        fs = [{'name': NAMES[i], 'type': 'int'} for i in range(nf)]
+        fs[-1]['default'] = 7
+        k = C('K', fs)
+        full = {K(NAMES[i]): 100 + i for i in range(nf)}
+        part = {K(NAMES[i]): 200 + i for i in range(nf - 1)}
+        # (a later load by the same thread sees what the race left behind: a half-initialised class shows there)
+        S.append(V1Scn(t + 'same class load||load,load', [k], [[L('K', full)], [L('K', part), L('K', full)]]))
+        if kc or ctx.tier == 'thorough':
+            S.append(V1Scn(t + 'same class 3 threads', [k], [[L('K', full)], [L('K', part)], [L('K', full)]]))
+        # -- wizard class with a CatchAll field
+        w = C('W', [{'name': 'alpha_one', 'type': 'int'}, {'name': 'rest_all', 'type': 'catch_all', 'default': None}], wiz=True)
+        if kc == wiz_kc or ctx.tier == 'thorough':
+            S.append(V1Scn(t + 'wizard catch-all load||load', [w],
+                           [[L('W', {K('alpha_one'): 1, 'zz1': 5})], [L('W', {K('alpha_one'): 2})]]))
+        # -- shared nested classes, depth 1 and 2
+        inner = C('Inner', [{'name': 'xx_val', 'type': 'int'}])
+        mid = C('Mid', [{'name': 'inner', 'type': 'cls:Inner'}, {'name': 'mm_val', 'type': 'int', 'default': 3}])
+        o1 = C('Outer1', [{'name': 'inner', 'type': 'cls:Inner'}, {'name': 'nn_val', 'type': 'int'}])
+        o2 = C('Outer2', [{'name': 'inner', 'type': 'cls:Inner'}, {'name': 'ss_val', 'type': 'str', 'default': 'd'}])
+        d1 = C('Deep1', [{'name': 'mid', 'type': 'cls:Mid'}, {'name': 'nn_val', 'type': 'int'}])
+        d2 = C('Deep2', [{'name': 'mid', 'type': 'cls:Mid'}, {'name': 'inner', 'type': 'cls:Inner'}])
+        I = lambda x: {K('xx_val'): x}
+        lo1 = L('Outer1', {'inner': I(1), K('nn_val'): 5})
+        lo2 = L('Outer2', {'inner': I(2), K('ss_val'): 'v'})
+        li = L('Inner', I(9))
+        ld1 = L('Deep1', {'mid': {'inner': I(1), K('mm_val'): 4}, K('nn_val'): 5})
+        ld2 = L('Deep2', {'mid': {'inner': I(2)}, 'inner': I(3)})
+        base, deep = [inner, o1, o2], [inner, mid, d1, d2]
+        if kc:
+            S.append(V1Scn(t + 'shared nested Outer1||Outer2', base, [[lo1], [lo2]]))
+            S.append(V1Scn(t + 'shared nested Inner,Outer2||Outer1,Inner', base, [[li, lo2], [lo1, li]]))
+            S.append(V1Scn(t + 'depth 2 Deep1||Deep2', deep, [[ld1], [ld2]]))
+        else:
+            S.append(V1Scn(t + 'shared nested Outer1||Outer1', base, [[lo1], [lo1]]))
+            S.append(V1Scn(t + '3 threads Outer1||Outer2||Inner', base, [[lo1], [lo2], [li]]))
+            if ctx.tier == 'thorough':
+                S.append(V1Scn(t + 'depth 2 Deep2||Mid', deep, [[ld2], [L('Mid', {'inner': I(7)})]]))
+    # -- AliasPath fields: the v1 site of F31 (the model predicts the MissingFields of the same schedules)
+    K, C, L = mk(False)
+    npth = r.choice([2, 3]) if ctx.tier == 'thorough' else 2
+    pf = [{'name': NAMES[i], 'type': 'int', 'path': 'pp.q%d' % i} for i in range(npth)]
+    pk = C('K', pf)
+    doc = {'pp': {'q%d' % i: 300 + i for i in range(npth)}}
+    S.append(V1Scn('v1 program: AliasPath x%d load||load,load' % npth, [pk], [[L('K', doc)], [L('K', doc), L('K', doc)]],
+                   regions=['F31']))
+    one = C('K', [{'name': 'alpha_one', 'type': 'int', 'path': 'pp.q0'}, {'name': 'beta_two', 'type': 'int'}])
+    S.append(V1Scn('v1 program: one AliasPath load||load', [one],
+                   [[L('K', {'pp': {'q0': 1}, 'beta_two': 2})], [L('K', {'pp': {'q0': 3}, 'beta_two': 4})]]))
+    return S
 
 
 def nested_scenarios(ctx):
@@ -434,7 +570,8 @@ def region_of(sc, run, t, j, o, ref_per):
     npaths = sum(1 for f in sc.fields if f.get('path'))
     # F31: two set-ups of the per-class path tables overlap (>= 2 JSON-path fields)
     if npaths >= 2 and err in ('KeyError', 'MissingFields'):
-        if err == 'MissingFields' and not set(o.get('missing_fields') or []) <= {NAMES[i] for i, f in enumerate(sc.fields) if f.get('path')}:
+        pnames = getattr(sc, 'path_names', None) or {NAMES[i] for i, f in enumerate(sc.fields) if f.get('path')}
+        if err == 'MissingFields' and not set(o.get('missing_fields') or []) <= pnames:
             return None
         starters = {tid for tid, n in trace if n in CFG_BEGIN}
         if (not trace) or len(starters) >= 2:
@@ -563,6 +700,8 @@ def run(ctx):
 
     def explore(sc):
         budget = (220 if quick else 2000) if sc.modelled else (120 if quick else 1200)
+        if sc.family == 'v1_program':
+            budget = 120 if quick else 1500
         if len(sc.threads) > 2:
             budget = int(budget * 1.25)
         p = {'op': 'explore' if hook_ok else 'seq', 'scenario': impl_scenario(sc), 'bound': bound, 'max_runs': budget,
@@ -595,7 +734,7 @@ def run(ctx):
         outs, last = None, None
         for attempt in range(3):   # a coqc killed by the OS on an overloaded machine is retried, not reported
             try:
-                outs = ctx.coq(['show_codes'] + exprs, imports=['PyStr', 'ConcModel'], tag='runs%d' % attempt)
+                outs = ctx.coq(['show_codes'] + exprs, imports=['PyStr', 'ConcModel', 'ConcV1Model'], tag='runs%d' % attempt)
                 break
             except Exception as e:
                 last = e
@@ -729,7 +868,8 @@ def run(ctx):
     # ---- supplementary: real threads, tiny switch interval -------------------------------------------
     stress = [sc for sc in scs if sc.name in ('plain load||load', 'plain dump||load', 'hook scan cold dump||dump',
                                              'paths dump||load', 'env instantiate||instantiate', 'v1 plain load||load')
-              or sc.family in ('nested', 'env_new_names')]
+              or sc.family in ('nested', 'env_new_names')
+              or (sc.family == 'v1_program' and (not quick or any(x in sc.name for x in ('same class load', 'shared nested', 'AliasPath x'))))]
     iters = 40 if quick else 300
 
     def do_stress(sc):
